@@ -63,7 +63,15 @@ def do_write(w, call, salt=0):
     if op == "set_san":
         w.string_sanitization_mode = call["b"]
     elif op == "add_bytes":
-        w.add_bytes(bytes(call["bytes"]))
+        if (len(call["bytes"]) + salt) % 2:
+            w.add_bytes(bytes(call["bytes"]))
+        else:
+            # the caller owns this buffer and goes on using it: what was written is a copy
+            buf = bytearray(call["bytes"])
+            w.add_bytes(buf)
+            buf.extend(b"\x07\x07")
+            for k in range(len(buf)):
+                buf[k] ^= 0x55
     elif op in ("add_byte", "add_char", "add_short", "add_three", "add_int"):
         getattr(w, op)(unlimbs(call["n"]))
     elif op in ("add_string", "add_encoded_string"):
